@@ -2177,7 +2177,7 @@ func genIssuance(c *ctx, emit func(ev)) {
 		}
 	}
 	if want("honest") { // C01: endurance - hundreds (thorough: tens of thousands) of honest runs through the same objects
-		for _, tn := range [][3]int{{1, 300, 66000}, {5, 300, 66000}, {2, 270, 3000}, {3, 270, 3000}} {
+		for _, tn := range [][3]int{{1, 300, 66000}, {5, 300, 66000}, {2, 270, 3000}, {3, 1200, 3000}} {
 			emit(ev{"op": "Endure", "t": tn[0], "n": c.tierFixed(tn[1], tn[2])})
 		}
 	}
